@@ -486,11 +486,13 @@ reg_range_touches(RegisterEntry *e, RegisterAddress addr, RegisterOffset n)
      * it is above the range */
     const RegisterOffset size = rds_size[e->type];
 
-    if ((e->address + size) <= addr) {
+    /* Compare distances, not end addresses: an end address wraps to zero for
+     * an entry or a range that reaches the top of the address space. */
+    if ((e->address < addr) && ((addr - e->address) >= size)) {
         return -1;
     }
 
-    if ((addr + n) <= e->address) {
+    if ((e->address >= addr) && ((e->address - addr) >= n)) {
         return 1;
     }
 
@@ -590,7 +592,7 @@ ra_addr_is_part_of(RegisterArea *a, RegisterAddress addr)
     if (a->base > addr) {
         return false;
     }
-    if ((a->base + a->size) <= addr) {
+    if ((addr - a->base) >= a->size) {
         return false;
     }
     return true;
@@ -605,9 +607,10 @@ ra_reg_is_part_of(RegisterArea *a, RegisterEntry *e)
 static bool
 ra_reg_fits_into(RegisterArea *a, RegisterEntry *e)
 {
-    const RegisterAddress area_end = a->base + a->size;
-    const RegisterAddress entry_end = e->address + rds_size[e->type];
-    return (entry_end <= area_end);
+    if (ra_addr_is_part_of(a, e->address) == false) {
+        return false;
+    }
+    return (rds_size[e->type] <= (a->size - (e->address - a->base)));
 }
 
 static AreaHandle
@@ -652,10 +655,10 @@ ra_range_touches(RegisterArea *a, RegisterAddress addr, RegisterOffset n)
 {
     /* Return -1 if area is below range; 0 if it is within the range and 1 if
      * it is above the range */
-    if ((a->base + a->size) <= addr) {
+    if ((a->base <= addr) && ((addr - a->base) >= a->size)) {
         return -1;
     }
-    if ((addr + n) <= a->base) {
+    if ((a->base >= addr) && ((a->base - addr) >= n)) {
         return 1;
     }
     return 0;
@@ -945,7 +948,7 @@ register_init(RegisterTable *t) /* NOLINT */
             BIT_CLEAR(t->flags, REG_TF_DURING_INIT);
             return rv;
         }
-        if (current < (previous + t->area[i-1].size)) {
+        if ((current - previous) < t->area[i-1].size) {
             rv.code = REG_INIT_AREA_ADDRESS_OVERLAP;
             rv.pos.area = i;
             BIT_CLEAR(t->flags, REG_TF_DURING_INIT);
@@ -963,7 +966,7 @@ register_init(RegisterTable *t) /* NOLINT */
             BIT_CLEAR(t->flags, REG_TF_DURING_INIT);
             return rv;
         }
-        if (current < (previous+rds_size[t->entry[i-1].type])) {
+        if ((current - previous) < rds_size[t->entry[i-1].type]) {
             rv.code = REG_INIT_ENTRY_ADDRESS_OVERLAP;
             rv.pos.entry = i;
             BIT_CLEAR(t->flags, REG_TF_DURING_INIT);
